@@ -166,7 +166,8 @@ impl<'a, L> Engine<'a, L> {
         loop {
             let (g_id, s_id) = &self.gs_id[inode];
             debug_assert!(s_id.starts_with("_:"), "{}", s_id);
-            let Some((iparent, pp)) = &self.unique_parent[s_id] else {
+            // NB: a list node that is never used as an object has no entry in unique_parent
+            let Some((iparent, pp)) = self.unique_parent.get(s_id).and_then(Option::as_ref) else {
                 return;
             };
             if self.options.processing_mode() == JsonLd1_0 && pp.as_ref() == RDF_FIRST {
